@@ -37,7 +37,12 @@ var hookSpecs = []hookSpec{
 		"IsWaitingSemiSyncAck", "GetStartupTime", "UpdateExternalCAFile", "SetReadOnlyWithForce",
 	}},
 	{"internal/util/util.go", "", []string{"RunParallel"}},
-	{"internal/mysql/gtids/wrapper.go", "", []string{"ParseGtidSet"}},
+	{"internal/app/util.go", "", []string{"getNodeStatesInParallel"}},
+	{"internal/app/timing_tracker.go", "App", []string{"logTiming"}},
+	{"internal/app/app.go", "App", []string{"getLocalDaemonState"}},
+	{"internal/app/node_state/node_state.go", "DiskState", []string{"Usage"}},
+	{"internal/mysql/gtids/wrapper.go", "", []string{"ParseGtidSet", "GTIDDiff"}},
+	{"internal/mysql/gtids/utils.go", "", []string{"IsSplitBrained"}},
 }
 
 // call-site rewrites: selector "pkg.Name" → "verifnd.NewName"
